@@ -119,13 +119,23 @@ def check_lib(ctx, gen_or_libs, target, drv):
             break
 
 
-def gen_libs(rng, quick):
+def gen_libs(rng, quick, compete=False):
     n = rng.choice([2, 3, 4, 5] if quick else [2, 3, 4, 5, 6])
-    g = a05.Gen(rng, n_classes=n, mod_rate=rng.choice([0.8, 0.95]), p_nested=rng.choice([0.1, 0.25]),
-                p_pkg=0.4, ref_rate=0.7).build()
+    if compete:
+        # several levels (declaration, extends clauses of a chain, enclosing components) set the same
+        # attribute / binding of one leaf; besides the uniform spellings, two in which every
+        # modification site (extends clause / declaration) independently takes one of S, D, N
+        g = a05.Gen(rng, n_classes=max(n, 3), mod_rate=0.95, p_nested=rng.choice([0.1, 0.2]), p_pkg=0.4, ref_rate=0.7,
+                    p_compete=rng.choice([0.5, 0.8])).build()
+    else:
+        g = a05.Gen(rng, n_classes=n, mod_rate=rng.choice([0.8, 0.95]), p_nested=rng.choice([0.1, 0.25]),
+                    p_pkg=0.4, ref_rate=0.7).build()
     libs = {}
     for st in STYLES:
         libs[st] = g.spelled(lambda i, st=st: st)
+    if compete:
+        for st in ("X1", "X2"):
+            libs[st] = g.spelled(lambda i: rng.choice(["S", "D", "N"]))
     return libs, g.target
 
 
@@ -165,12 +175,32 @@ def run(ctx):
             ctx.count("winner-%s-%d-levels-up" % (kd, min(up, 3)))
         check_lib(ctx, libs, target, drv)
     ctx.extra["libraries"] = done
+    # competing stream (after the main stream, which keeps its random numbers)
+    n_comp = 30 if quick else 600
+    done_comp = tries = 0
+    while done_comp < n_comp and tries < 30 * n_comp:
+        tries += 1
+        if ctx.time_left() < 0:
+            ctx.notes.append("stopped by time budget after %d competing-stream libraries" % done_comp)
+            break
+        libs, target = gen_libs(ctx.rng, quick, compete=True)
+        trig = a05.triggers(libs["S"], target)
+        if trig & ({"ILLEGAL", "ILLEGAL-LOCAL"} | BLOCKING):
+            ctx.count("competing-stream-skipped-" + ("illegal" if trig & {"ILLEGAL", "ILLEGAL-LOCAL"} else "open-C07-finding"))
+            continue
+        done_comp += 1
+        ctx.count("stream-competing")
+        ctx.case({"lib": libs["S"], "target": target}, nontrivial=competing(libs["S"], target))
+        for lb in a05.compete_shape(libs["S"], target):
+            ctx.count("competing:" + lb)
+        check_lib(ctx, libs, target, drv)
+    ctx.extra["competing_stream_libraries"] = done_comp
 
 
 def search(ctx):
     n = 0
     while ctx.time_left() > 0 and not ctx.violations:
-        libs, target = gen_libs(ctx.rng, False)
+        libs, target = gen_libs(ctx.rng, False, compete=n % 2 == 1)
         if a05.triggers(libs["S"], target) & (BLOCKING | {"ILLEGAL", "ILLEGAL-LOCAL"}):
             continue
         n += 1
